@@ -575,9 +575,9 @@ def add_generics(prog, rng, p=0.12):
     import copy
     for nid in list(prog['order']):
         n = prog['nodes'][nid]
-        if nid == prog['input'] or n.get('start_of') or n.get('kind', 'plain') != 'plain' or not n.get('params'):
+        if nid == prog['input'] or n.get('kind', 'plain') != 'plain' or not n.get('params'):
             continue
-        if rng.random() < p:
+        if rng.random() < (p * 2 if n.get('start_of') else p):
             base_id = 'G' + nid[1:]
             base = copy.deepcopy(n)
             base['id'] = base_id
@@ -585,6 +585,8 @@ def add_generics(prog, rng, p=0.12):
             base['nm'] = ['custom', 'base_' + nid]
             prog['nodes'][base_id] = base
             n['generic_of'] = base_id
+            if rng.random() < 0.6:
+                n['dep_default'] = True      # build_node(dependencies_default=...): an extra keyword for the body
             prog['order'].insert(prog['order'].index(nid), base_id)
     return prog
 
